@@ -5,12 +5,14 @@ CONSTANT SimDepth
 VARIABLE hist
 svars == <<vars, hist>>
 SimInit == Init /\ hist = <<>>
-SimNext == \/ /\ Len(hist) < SimDepth /\ Next
+Ended == hist # <<>> /\ hist[Len(hist)].a.name = "End"
+Stuck == air = <<>> /\ enc.gid >= MaxGroups
+SimNext == \/ /\ ~Ended /\ Len(hist) < SimDepth /\ Next
               /\ hist' = Append(hist, [a |-> act', s |-> [dec |-> ProjDec(dec'), out |-> last'.out, next |-> enc'.next]])
-           \/ /\ Len(hist) = SimDepth
+           \/ /\ ~Ended /\ (Len(hist) = SimDepth \/ Stuck)
               /\ hist' = Append(hist, [a |-> [name |-> "End", a |-> 0, b |-> 0], s |-> [next |-> enc.next]])
               /\ UNCHANGED vars
 SimSpec == SimInit /\ [][SimNext]_svars
-EmitBeh == Len(hist) = SimDepth + 1 =>
-   PrintT(<<"BEH", ToJson([ed |-> Ed, ep |-> Ep, dd |-> Dd, dp |-> Dp, start |-> Start, steps |-> SubSeq(hist, 1, SimDepth)])>>)
+EmitBeh == Ended =>
+   PrintT(<<"BEH", ToJson([ed |-> Ed, ep |-> Ep, dd |-> Dd, dp |-> Dp, start |-> Start, steps |-> SubSeq(hist, 1, Len(hist) - 1)])>>)
 =============================================================================
